@@ -17,7 +17,7 @@ pub fn meta() -> Meta {
         level: "model_checking",
         rule: "(a) for every kind in {bdd,bcdd,zbdd}, n=3: every source order (6) x every request (all 15 ordered selections of 1..3 distinct variables) with all 256 functions alive; n=4: every source x every total target (576) with a 64-function live set, every partial request from the identity; 1 and 2 workers. After the call: requested pairs in order, Kendall-tau distance to the source minimal among all orders satisfying the request (brute force), var/level maps inverse, every old handle has its old table (interpreter and eval), full audit incl. exact reference counts, canonicity (== route-A rebuild), node_count = model minimum. (b) histories: all sequences of depth <= d over {reorder to each of the 6 orders, and, xor, drop, gc} from each source order, every later result compared with the model and with the same operations on a manager created directly in the final order. state = (order, live tables); transition = one executed step.",
         assumptions: vec![
-            "the concurrent bubble sort is only taken above 65536 nodes; its schedule exploration is part of C07/C08 E-SCHED (hook-based) and reported there".into(),
+            "the concurrent bubble sort / parallel level update (normally only taken from 65536 nodes on) is forced through a cfg(oxidd_verif) switch for the `conc4` shards and runs on 4 real rayon workers: exhaustive over (source, target) inputs, free-running over thread schedules (its schedules are not enumerated)".into(),
             "orders on 5..10 variables are not enumerated".into(),
         ],
         hang_is_violation: true,
@@ -52,6 +52,12 @@ pub fn shards(tier: &str) -> Vec<String> {
         }
         for o in ["01234", "43210", "20413", "31402"] {
             v.push(format!("{k}:sparse5:{o}:t1"));
+        }
+        // the concurrent variant (forced through the oxidd-reorder hook), 4 real workers
+        for (i, o) in p4.iter().enumerate() {
+            if tier == "thorough" || i % 3 == 0 {
+                v.push(format!("{k}:conc4:{}:t4", model::order_str(o)));
+            }
         }
     }
     v
@@ -230,7 +236,9 @@ pub fn run(ctx: &mut Ctx) {
 
 fn run_k<K: BoolKind>(ctx: &mut Ctx, part: &str, src: &str, tc: &str) {
     let src = model::parse_order(src);
-    let tc = ThreadCfg { threads: if tc == "t2" { 2 } else { 1 }, split: None };
+    let tc = ThreadCfg { threads: if tc == "t2" { 2 } else if tc == "t4" { 4 } else { 1 }, split: None };
+    crate::dd::force_concurrent_reorder(part == "conc4");
+    let part = if part == "conc4" { "n4" } else { part };
     match part {
         "n3" => {
             let tabs: Vec<Tab> = (0..256).collect();
